@@ -30,6 +30,7 @@ __all__ = [  # noqa: F822
     'StatLabel',
     'StatBreak',
     'StatReturn',
+    'StatPrintShort',
     'FunctionName',
     'FunctionArgs',
     'VarList',
@@ -178,6 +179,9 @@ _ast_node_types = (
     ('StatLabel', ('label',)),
     ('StatBreak', ()),
     ('StatReturn', ('explist',)),
+
+    # PICO-8's "?exp, ..." print shorthand, which ends at the end of its line.
+    ('StatPrintShort', ('explist',)),
     ('FunctionName', ('namepath', 'methodname')),
     ('FunctionArgs', ('explist',)),
     ('VarList', ('vars',)),
@@ -407,7 +411,8 @@ class Parser():
          function funcname funcbody |
          local function Name funcbody |
          local namelist ['=' explist] |
-         ::label::
+         ::label:: |
+         '?' [explist] <end of line>
 
         Returns:
           StatAssignment(varlist, assignop, explist)
@@ -423,8 +428,24 @@ class Parser():
           StatLocalAssignment(namelist, explist)
           StatGoto(label)
           StatLabel(label)
+          StatPrintShort(explist)
         """
         pos = self._pos
+
+        if self._accept(lexer.TokName(b'?')) is not None:
+            # PICO-8 print shorthand: the arguments end with the line.
+            line_end_pos = self._pos
+            while (line_end_pos < len(self._tokens) and
+                   not self._tokens[line_end_pos].matches(lexer.TokNewline)):
+                line_end_pos += 1
+            outer_max_pos = self._max_pos
+            try:
+                if outer_max_pos is None or line_end_pos < outer_max_pos:
+                    self._max_pos = line_end_pos
+                explist = self._explist()
+            finally:
+                self._max_pos = outer_max_pos
+            return StatPrintShort(explist, start=pos, end=self._pos)
 
         varlist = self._varlist()
         if varlist is not None:
